@@ -3,6 +3,8 @@
 package zzverif
 
 import (
+	"github.com/failsafe-go/failsafe-go/cachepolicy"
+	"sync"
 	"context"
 	"errors"
 	"time"
@@ -834,4 +836,74 @@ func ZZ_S09b_HedgePlacements() {
 	zzvrt.Assert(zzvrt.Live() == 0, "leak: no library goroutine left")
 	zzvrt.Assert(zzvrt.ArmedTimers() == 0, "leak: no library timer left armed")
 	zzvrt.Reach("hedge-placements-done")
+}
+
+// ---------------------------------------------------------------------------------------------
+// C11b: two executions through one cache policy with different context-supplied keys that overlap — nested (A's
+// function runs B through the same policy) or concurrent (B starts while A's function runs). Each result is stored
+// under its own execution's key and later hits return the right value.
+type zzSafeCache struct {
+	mu sync.Mutex
+	m  map[string]int
+}
+
+func (c *zzSafeCache) Get(key string) (int, bool) {
+	c.mu.Lock()
+	defer c.mu.Unlock()
+	v, ok := c.m[key]
+	return v, ok
+}
+func (c *zzSafeCache) Set(key string, value int) {
+	c.mu.Lock()
+	defer c.mu.Unlock()
+	c.m[key] = value
+}
+
+func ZZ_C11b_OverlappingKeys() {
+	cache := &zzSafeCache{m: map[string]int{}}
+	cp := cachepolicy.Builder[int](cache).WithKey("configured").Build()
+	va := zzvrt.Int("value-a")
+	vb := zzvrt.Int("value-b")
+	ctxA := context.WithValue(context.Background(), cachepolicy.CacheKey, "a")
+	ctxB := context.WithValue(context.Background(), cachepolicy.CacheKey, "b")
+	ex := failsafe.NewExecutor[int](cp)
+	if zzvrt.Choose("concurrent", 2) == 0 {
+		ra, ea := ex.WithContext(ctxA).Get(func() (int, error) {
+			rb, eb := ex.WithContext(ctxB).Get(func() (int, error) { return vb, nil })
+			zzvrt.Assert(eb == nil, "cache: a miss returns the inner result unchanged")
+			zzvrt.Assert(rb == vb, "cache: a miss returns the inner result unchanged")
+			return va, nil
+		})
+		zzvrt.Assert(ea == nil, "cache: a miss returns the inner result unchanged")
+		zzvrt.Assert(ra == va, "cache: a miss returns the inner result unchanged")
+	} else {
+		d := symDur("fnDurationA", 1, 20)
+		off := symDur("startB", 0, 20)
+		resA := ex.WithContext(ctxA).GetAsync(func() (int, error) {
+			zzvrt.Sleep(d)
+			return va, nil
+		})
+		zzvrt.Sleep(off)
+		rb, eb := ex.WithContext(ctxB).Get(func() (int, error) { return vb, nil })
+		zzvrt.Assert(eb == nil, "cache: a miss returns the inner result unchanged")
+		zzvrt.Assert(rb == vb, "cache: a miss returns the inner result unchanged")
+		ra, ea := resA.Get()
+		zzvrt.Assert(ea == nil, "cache: a miss returns the inner result unchanged")
+		zzvrt.Assert(ra == va, "cache: a miss returns the inner result unchanged")
+	}
+	zzvrt.Quiesce()
+	ga, oka := cache.Get("a")
+	gb, okb := cache.Get("b")
+	zzvrt.Assert(oka, "cache: the result is stored under the execution's own (context-supplied) key")
+	zzvrt.Assert(okb, "cache: the result is stored under the execution's own (context-supplied) key")
+	zzvrt.Assert(ga == va, "cache: the result is stored under the execution's own (context-supplied) key")
+	zzvrt.Assert(gb == vb, "cache: the result is stored under the execution's own (context-supplied) key")
+	zzvrt.Assert(len(cache.m) == 2, "cache: nothing else stored")
+	hit, eh := ex.WithContext(ctxB).Get(func() (int, error) {
+		zzvrt.Fail("cache: a hit does not invoke the function")
+		return 0, nil
+	})
+	zzvrt.Assert(eh == nil, "cache: a hit returns the cached value with no error")
+	zzvrt.Assert(hit == vb, "cache: a hit returns the value cached under the execution's key")
+	zzvrt.Reach("overlapping-keys-done")
 }
